@@ -20,8 +20,8 @@ from . import compat
 
 compat.install()
 
-from xdsl.dialects import arith, func, linalg, memref, test  # noqa: E402
-from xdsl.dialects.builtin import MemRefType, NoneAttr, StridedLayoutAttr  # noqa: E402
+from xdsl.dialects import arith, builtin, func, linalg, llvm, memref, test  # noqa: E402
+from xdsl.dialects.builtin import IndexType, IntegerType, MemRefType, NoneAttr, StridedLayoutAttr  # noqa: E402
 
 from snaxc.dialects import snax  # noqa: E402
 
@@ -127,6 +127,9 @@ class BufferMachine(Machine):
         self.probes: dict[str, int] = {}
         self.faults: dict[str, int] = {}
         self.sync_log: list = []
+        self.l1_elbytes = 4
+        self.static_addrs: dict = {}
+        self.taint = False  # reference runs of the static-allocation variant: values computed from uninitialised data are 'undef'
         self.step_limit = 400_000
 
     def probe(self, name, n=1):
@@ -251,6 +254,65 @@ def _dealloc(m, op, vals, core):
     m.get(vals, op.memref)  # a no-op on the target (snax-to-func erases deallocs)
 
 
+# -- statically allocated buffers (what snax-allocate emits): constant address -> llvm struct -> memref.  All such buffers
+# are views of ONE address-indexed pseudo buffer, so two allocations that were given the same address share their cells
+# (and the race monitor sees an access to one as an access to the other).
+
+L1_NAME = "L1@"
+
+
+@handler(llvm.UndefOp)
+def _undef(m, op, vals, core):
+    vals[op.res] = {}
+
+
+@handler(llvm.InsertValueOp)
+def _insertvalue(m, op, vals, core):
+    d = dict(m.get(vals, op.container))
+    d[tuple(op.position.get_values())] = m.get(vals, op.value)
+    vals[op.res] = d
+
+
+@handler(llvm.IntToPtrOp)
+def _inttoptr(m, op, vals, core):
+    v = m.get(vals, op.input)
+    vals[op.output] = v & 0xFFFFFFFF
+
+
+@handler(builtin.UnrealizedConversionCastOp)
+def _ucc(m: BufferMachine, op, vals, core):
+    v = m.get(vals, op.inputs[0])
+    t = op.outputs[0].type
+    if isinstance(v, dict) and isinstance(t, MemRefType):
+        eb = t.get_element_type().size
+        rank = len(t.get_shape())
+        sizes = [v.get((3, i)) for i in range(rank)]
+        if any(x is None for x in sizes) or (1,) not in v:
+            raise Violation("descriptor", f"memref descriptor built by the allocator is incomplete: {sorted(v)}")
+        if not isinstance(t.layout, NoneAttr):
+            raise HarnessError("statically allocated buffers with a layout are not modelled")
+        addr = v[(1,)]
+        if addr % eb or eb != m.l1_elbytes:
+            raise HarnessError(f"address {addr:#x} / element size {eb}: the address-indexed model uses {m.l1_elbytes}-byte cells")
+        b = m.buffers.get(L1_NAME)
+        if b is None:
+            b = m.buffers[L1_NAME] = Buffer(L1_NAME, 0, False)
+        off = addr // eb
+        n = 1
+        for x in sizes:
+            n *= x
+        for i in range(off, off + n):
+            m.mem.setdefault((L1_NAME, i), ("garbage", L1_NAME, i))
+        vals[op.outputs[0]] = View(b, off, sizes, dense_strides(sizes))
+        m.probe("static-buffer")
+        m.static_addrs.setdefault(id(op), addr)
+        return
+    if isinstance(v, int) and isinstance(t, IntegerType | IndexType):
+        vals[op.outputs[0]] = v
+        return
+    vals[op.outputs[0]] = v
+
+
 @handler(memref.SubviewOp)
 def _subview(m: BufferMachine, op, vals, core):
     src: View = m.get(vals, op.source)
@@ -277,6 +339,10 @@ def _sync(m: BufferMachine, op, vals, core):
         yield ("barrier",)
     core.epoch += 1
     core.hist.append(("barrier",))
+
+
+def is_undef(x):
+    return isinstance(x, tuple) and x and x[0] in ("garbage", "undef")
 
 
 def _do_copy(m: BufferMachine, core, src: View, dst: View, desc, tag):
@@ -332,13 +398,14 @@ def _generic(m: BufferMachine, op, vals, core):
             if not m.seq:
                 yield ("mem",)
     h = hashlib.blake2b(repr(read).encode(), digest_size=6).hexdigest()
+    undef = m.taint and any(is_undef(x) for x in read)
     for oi, v in enumerate(outs):
         idxs = list(v.indices())
         pos = 0
         for ch in m.chunks(idxs):
             for i in ch:
                 m.access(core, "w", v.buf.name, i, desc)
-                m.mem[(v.buf.name, i)] = ("k", tag, oi, pos, h)
+                m.mem[(v.buf.name, i)] = ("undef",) if undef else ("k", tag, oi, pos, h)
                 pos += 1
             if not m.seq:
                 yield ("mem",)
@@ -362,10 +429,11 @@ def _stream(m: BufferMachine, op, vals, core):
     if not m.seq:
         yield ("mem",)
     h = hashlib.blake2b(repr(read).encode(), digest_size=6).hexdigest()
+    undef = m.taint and any(is_undef(x) for x in read)
     for v in outs:
         for pos, i in enumerate(v.indices()):
             m.access(core, "w", v.buf.name, i, desc)
-            m.mem[(v.buf.name, i)] = ("k", tag, 0, pos, h)
+            m.mem[(v.buf.name, i)] = ("undef",) if undef else ("k", tag, 0, pos, h)
     m.oplog.append((core.id, tag, tuple(x.descr() for x in ins + outs), tuple(read)))
 
 
